@@ -153,6 +153,27 @@ def repo_data(recipe):
     return out
 
 
+def crystal_data(recipe):
+    """The dictionary Crystal.to_cif_data() produces for a real crystal on an exact grid (binds the CIF leg of C10 to
+    the byte-level CIF specification): returns (the library's own dict, a plain-Python copy for the encoder)."""
+    import numpy as np
+    from harness import xtal
+    cr = xtal.build_crystal(recipe["rec"])
+    raw = cr.to_cif_data(data_block_name=recipe.get("block", "crystal"))
+
+    def scalar(v):
+        if isinstance(v, (np.floating, float)):
+            return float(v)
+        if isinstance(v, (np.integer, int)) and not isinstance(v, bool):
+            return int(v)
+        return str(v)
+    plain = {}
+    for b, blk in raw.items():
+        plain[str(b)] = {str(k): ([scalar(x) for x in v] if isinstance(v, (list, tuple, np.ndarray)) else scalar(v))
+                         for k, v in blk.items()}
+    return raw, plain
+
+
 # ------------------------------------------------------------------ drivers (real code)
 def drive(recipe):
     kind = recipe["kind"]
@@ -163,12 +184,18 @@ def drive(recipe):
          "s": [], "exc": "", "exc_u": "", "val": _other(None), "val_u": _other(None), "unc": [0],
          "meta": {"recipe": recipe, "source": recipe.get("source", kind),
                   "impl_call": "Cif.from_string(Cif(data).to_string()).data", "nontrivial": False}}
-    data = build_data(recipe["data"]) if kind == "rt" else repo_data(recipe)
+    lib_data = None
+    if kind == "rt":
+        data = build_data(recipe["data"])
+    elif kind == "crystal":
+        lib_data, data = crystal_data(recipe)     # what a real Crystal hands to the CIF writer (numpy arrays and all)
+    else:
+        data = repo_data(recipe)
     t["data"] = enc_data(data)
     t["meta"]["nontrivial"] = any(it["col"] and len(it["v"]) > 0 for b in t["data"] for it in b["items"]) and \
         any(v["k"] != "int" for b in t["data"] for it in b["items"] for v in it["v"])
     try:
-        text = Cif(data).to_string()
+        text = Cif(lib_data if lib_data is not None else data).to_string()
     except Exception as e:          # an exception of the implementation is an observation
         t["exc_ser"] = type(e).__name__
         return t
@@ -426,6 +453,24 @@ def build_recipes(ctx):
                         recipes.append({"kind": "repo", "source": "repo-file", "file": rel, "variant": "drop:" + name})
         except Exception:
             pass                       # the "full" recipe records what the library does with this file
+    # dictionaries written by real Crystal objects (all crystal systems, special positions, partial occupancies)
+    import math as _m
+    from harness import xtal
+    from harness.c02 import table_rows
+    rows = table_rows()
+    rng = random.Random(ctx.seed * 7907 + 3)
+    for r in (rng.sample(rows, 50) if q else rows):
+        n = rng.choice([12, 24, 48])
+        asym = xtal.gen_asym(rng, r["ops"], n, rng.randint(1, 3))
+        if not asym:
+            continue
+        for a in asym:
+            a["p"] = [x % n for x in a["p"]]
+        gram = xtal.sym_gram(r["ops"], rng)
+        vol = max(len(r["ops"]) * len(asym) * 15.0, 80.0)
+        recipes.append({"kind": "crystal", "source": "real-crystal", "block": "xtal_%d" % r["number"],
+                        "rec": {"number": r["number"], "choice": r["choice"], "n": n, "gram": gram,
+                                "u": (vol / _m.sqrt(xtal.det3(gram))) ** (1 / 3.0), "asym": asym, "route": "params"}})
     recipes += pv_recipes(ctx.rng, 300 if q else 6000)
     return recipes
 
